@@ -88,8 +88,8 @@ class HQL:
         |  STRING EQ id
         |  STRING id"""
         p_list = remove_par(list(p))
-        if "state" in self.lexer.__dict__:
-            p[0] = {p[1]: self.lexer.state.get(p_list[-1])}
+        if "state" in self.lexer.__dict__ and p_list[-1] in self.lexer.state:
+            p[0] = {p[1]: self.lexer.state[p_list[-1]]}
         else:
             if "=" in p_list[-1]:
                 p_list[-1] = p_list[-1].split("=")[-1]
